@@ -124,7 +124,10 @@ def subsetSimulation( dim, g, distObjs, corrMat, numSamples,
 
     # Create each chain for each sample
     numChains = numSamplesRemained = int( probLevel * numSamples )
-    numSamplesEachChain = int( 1.0 / probLevel )
+    # Every level is renewed completely: the chains share the remainder when 
+    # numChains does not divide numSamples
+    chainLengths = [ numSamples // numChains + ( 1 if i < numSamples % numChains else 0 )
+                     for i in range( numChains ) ]
 
     # Allocate space
     curUSamples = np.zeros( [ numSamples, dim ] )
@@ -176,7 +179,7 @@ def subsetSimulation( dim, g, distObjs, corrMat, numSamples,
                                      lsfLevel=lsfLevel,
                                      natafTrans=natafTrans )
 
-            for _ in range( numSamplesEachChain - 1 ):
+            for _ in range( chainLengths[ i ] - 1 ):
                 curU = auMMHSampler.getSample()
                 curX, _ = natafTrans.getX( curU )
                 curUSamples[ curIdx ] = curU
